@@ -80,6 +80,9 @@ pub enum RK {
     Burst { m: S, a: Src },
     SelfAbort { a: Src, m: S, handle: u16 },
     HandOff { a: Src, b: Src, c: S },
+    StreamUntil { a: Src, b: Src },
+    /// req a -> event; then spawns (req b with arg = value -> event)
+    ChainLink { a: Src, next: Option<S> },
     SpawnAfter { a: Src, m: S },
     /// spawned by SpawnAfter: notifies the shell with `arg`
     NotifyArg { m: S, arg: u32 },
@@ -486,6 +489,17 @@ impl RCmd {
                     cx.eff(&mut a, Kind::Once, 0);
                     t.kind = RK::SpawnAfter { a, m };
                 }
+                P::StreamUntil(s, u) => {
+                    let (mut a, mut b) = (Src::new(s), Src::new(u));
+                    cx.eff(&mut a, Kind::Many, 0);
+                    cx.eff(&mut b, Kind::Once, 0);
+                    t.kind = RK::StreamUntil { a, b };
+                }
+                P::SpawnChain(s, u) => {
+                    let c = self.insert(task(RK::ChainLink { a: Src::new(s), next: Some(u) }));
+                    self.ready.push(c);
+                    return Run::Finished;
+                }
                 P::SelfAbort(s, m) => {
                     let mut a = Src::new(s);
                     cx.eff(&mut a, Kind::Once, 0);
@@ -712,6 +726,38 @@ impl RCmd {
                 St::G => Run::Finished,
                 _ => Run::Pending,
             },
+            RK::StreamUntil { a, b } => {
+                // left-biased select: pending items are taken before the stop answer is looked at
+                for v in std::mem::take(&mut a.q) {
+                    cx.got(a.site, v);
+                }
+                if let St::V(w) = b.st {
+                    cx.got(b.site, w);
+                    return Run::Finished;
+                }
+                if a.st == St::G && b.st == St::G {
+                    return Run::Finished;
+                }
+                Run::Pending
+            }
+            RK::ChainLink { a, next } => match a.st {
+                St::U => {
+                    let arg = a.q.pop().unwrap_or(0);
+                    cx.eff(a, Kind::Once, arg);
+                    Run::Pending
+                }
+                St::V(v) => {
+                    cx.got(a.site, v);
+                    if let Some(n) = next {
+                        let mut src = Src::new(*n);
+                        src.q = vec![v]; // carries the arg until the link is first polled
+                        self.spawnq.push(task(RK::ChainLink { a: src, next: None }));
+                    }
+                    Run::Finished
+                }
+                St::G => Run::Finished,
+                _ => Run::Pending,
+            },
             RK::HandOff { a, b, c } => {
                 let winner_is_a = matches!(a.st, St::V(_));
                 let winner_is_b = !winner_is_a && matches!(b.st, St::V(_));
@@ -860,10 +906,11 @@ impl RK {
     fn srcs_mut(&mut self) -> Vec<&mut Src> {
         match self {
             RK::Req { a, .. } | RK::Stream { a, .. } | RK::ChildReq { a } | RK::StreamChild { a }
-            | RK::Burst { a, .. } | RK::SpawnAfter { a, .. } | RK::Producer { a, .. } | RK::SibAborter { a, .. } | RK::SelfAbort { a, .. } => vec![a],
+            | RK::Burst { a, .. } | RK::SpawnAfter { a, .. } | RK::Producer { a, .. } | RK::SibAborter { a, .. } | RK::SelfAbort { a, .. }
+            | RK::ChainLink { a, .. } => vec![a],
             RK::Aborter { b, .. } | RK::AwaitJoinReq { b, .. } => vec![b],
             RK::ReqReq { a, b } | RK::ReqStream { a, b, .. } | RK::StreamReq { a, b, .. } | RK::Join { a, b }
-            | RK::Select { a, b } | RK::HandOff { a, b, .. } => vec![a, b],
+            | RK::Select { a, b } | RK::HandOff { a, b, .. } | RK::StreamUntil { a, b } => vec![a, b],
             RK::StreamStream { a, bs, .. } => {
                 let mut v = vec![a];
                 v.extend(bs.iter_mut());
@@ -876,10 +923,11 @@ impl RK {
     fn srcs(&self) -> Vec<&Src> {
         match self {
             RK::Req { a, .. } | RK::Stream { a, .. } | RK::ChildReq { a } | RK::StreamChild { a }
-            | RK::Burst { a, .. } | RK::SpawnAfter { a, .. } | RK::Producer { a, .. } | RK::SibAborter { a, .. } | RK::SelfAbort { a, .. } => vec![a],
+            | RK::Burst { a, .. } | RK::SpawnAfter { a, .. } | RK::Producer { a, .. } | RK::SibAborter { a, .. } | RK::SelfAbort { a, .. }
+            | RK::ChainLink { a, .. } => vec![a],
             RK::Aborter { b, .. } | RK::AwaitJoinReq { b, .. } => vec![b],
             RK::ReqReq { a, b } | RK::ReqStream { a, b, .. } | RK::StreamReq { a, b, .. } | RK::Join { a, b }
-            | RK::Select { a, b } | RK::HandOff { a, b, .. } => vec![a, b],
+            | RK::Select { a, b } | RK::HandOff { a, b, .. } | RK::StreamUntil { a, b } => vec![a, b],
             RK::StreamStream { a, bs, .. } => {
                 let mut v = vec![a];
                 v.extend(bs.iter());
